@@ -494,7 +494,8 @@ func (c *Cluster) regionProblemLocked(rs *RS, name []byte) (*Region, string) {
 
 func (c *Cluster) handle(rs *RS, sc *ServerConn, req *Request) {
 	name := regionOf(req)
-	c.Trace.Emit("req", "conn", sc.ID, "addr", rs.Addr, "id", int(req.CallID), "method", req.Method, "region", string(name), "prio", int(req.Priority))
+	c.Trace.Emit("req", "conn", sc.ID, "addr", rs.Addr, "id", int(req.CallID), "method", req.Method, "region", string(name), "prio", int(req.Priority),
+		"row", string(RowOf(req)), "probe", IsProbe(req))
 	c.mu.Lock()
 	rules := c.Rules
 	c.mu.Unlock()
@@ -891,4 +892,17 @@ func (c *Cluster) serveMulti(rs *RS, sc *ServerConn, req *Request, p *pb.MultiRe
 func IsProbe(req *Request) bool {
 	g, ok := req.Param.(*pb.GetRequest)
 	return ok && g.GetGet().GetExistenceOnly()
+}
+
+// RowOf returns the row a single get / mutate addresses (scan: the start row; multi: nil).
+func RowOf(req *Request) []byte {
+	switch p := req.Param.(type) {
+	case *pb.GetRequest:
+		return p.GetGet().GetRow()
+	case *pb.MutateRequest:
+		return p.GetMutation().GetRow()
+	case *pb.ScanRequest:
+		return p.GetScan().GetStartRow()
+	}
+	return nil
 }
